@@ -619,7 +619,7 @@ class MultiSetup_PreGER(BaseSetup, GeometryMixin):
 
         Y = pre_multisetup(newdatasets, self.ref_ind)
         fs = self.fs / q
-        dt = 1 / self.fs
+        dt = 1 / fs
 
         self.datasets = newdatasets
         self.data = Y
